@@ -221,8 +221,9 @@ func runC09(c *core.Ctx) {
 	// (the verdict of a variable condition must not stick to the parsed request)
 	for kind := 0; kind < 3; kind++ {
 		for order := 0; order < 2; order++ {
-			for first := 0; first < 4; first++ {
-				for second := 0; second < 4; second++ {
+			// per call: both variables supplied (4 assignments), none supplied (the defaults decide), only one supplied (2 + 2)
+			for first := 0; first < 9; first++ {
+				for second := 0; second < 9; second++ {
 					idx++
 					if !c.OwnsIdx(idx) {
 						continue
@@ -261,7 +262,17 @@ func runC09(c *core.Ctx) {
 							panic(core.EngineError{Msg: "C09 reuse document refused: " + perr.Error()})
 						}
 						for step, code := range []int{first, second} {
-							vars := map[string]interface{}{"sk": code&1 == 1, "inc": code&2 == 0}
+							vars := map[string]interface{}{}
+							switch {
+							case code < 4:
+								vars["sk"], vars["inc"] = code&1 == 1, code&2 == 0
+							case code == 4:
+								// nothing supplied
+							case code < 7:
+								vars["sk"] = code == 5
+							default:
+								vars["inc"] = code == 7
+							}
 							ex := world.RefExec(s, g, d, "Q", vars, nil, world.RefOpts{})
 							c.Eval()
 							run.Log = nil
@@ -292,5 +303,5 @@ func runC09(c *core.Ctx) {
 			}
 		}
 	}
-	c.R.Bound = "complete table 49 x 2 x 3 x 3 x configurations; the selection written twice (9 x 9 directive states x 3 kinds x 2 spacings); + all ordered pairs of variable assignments on one parsed executable"
+	c.R.Bound = "complete table 49 x 2 x 3 x 3 x configurations; the selection written twice (9 x 9 directive states x 3 kinds x 2 spacings); + all ordered pairs of 9 variable maps (supplied / omitted) on one parsed executable"
 }
